@@ -10,6 +10,22 @@ import (
 	"testing/iotest"
 )
 
+// a buffer that refuses to grow beyond a cap: a writer that runs away (quadratic output after a seeded change)
+// gets an error from its io.Writer instead of taking the harness down with it
+type objstlCapBuffer struct {
+	bytes.Buffer
+	Cap      int
+	Overflow bool
+}
+
+func (b *objstlCapBuffer) Write(p []byte) (int, error) {
+	if b.Len()+len(p) > b.Cap {
+		b.Overflow = true
+		return 0, io.ErrShortBuffer
+	}
+	return b.Buffer.Write(p)
+}
+
 // ---- reader variety: the same bytes through readers with different Read granularity ----------------------
 
 type objstlChunkReader struct {
